@@ -94,6 +94,15 @@ def main(argv):
             ctx = core.run_case(prop, case, tier)
             signal.alarm(0)
             rec.update(ctx.summary())
+            if item.get("common"):
+                # the same run seed is executed by every worker (another hash seed each): keep the case for the parent's comparison
+                rec["common"] = True
+                cpath = os.path.join(job["common_dir"], f"{runseed}.case.json")
+                if not os.path.exists(cpath):
+                    tmp = cpath + f".{os.getpid()}"
+                    with open(tmp, "w") as fh:
+                        json.dump(case, fh, default=core._default)
+                    os.replace(tmp, cpath)
             if n_done < 1:
                 rec["sample"] = sc.describe(case) if hasattr(sc, "describe") else case
         except RunTimeout:
